@@ -133,6 +133,16 @@ func floatBitsIssues(s *sided) []sideIssue {
 		if h := s.rs.hole(id.Name); h == nil || h.Origin != "math" {
 			return true
 		}
+		// x + 0 has the bits of +0 for x = -0 and the bits of x for every other x (IEEE 754 addition, round to nearest; frozen
+		// fact, checked against the Go toolchain in this sandbox): the normalised operand is a function of the == class
+		if len(c.Args) == 1 {
+			if be, ok := unparen(c.Args[0]).(*ast.BinaryExpr); ok && be.Op == token.ADD {
+				isZero := func(e ast.Expr) bool { bl, ok := unparen(e).(*ast.BasicLit); return ok && (bl.Value == "0" || bl.Value == "0.0") }
+				if isZero(be.Y) || isZero(be.X) {
+					return true
+				}
+			}
+		}
 		if len(c.Args) == 1 && s.side(c.Args[0]) == "A" {
 			out = append(out, sideIssue{c, fmt.Sprintf("hashes %s by its bit pattern (math.%s) while derived Equal compares the same leaf with ==: +0 and -0 are == but have different bit patterns, so Equal values hash differently", s.rs.src(c.Args[0]), sel.Sel.Name), "float-bits", ""})
 		}
@@ -204,7 +214,7 @@ func runR_C04(c *Ctx) {
 	g9Methods(c, methodSpec{"hash.hasHashMethod", "Hash", 0, 1, types.Invalid})
 	sortLessRules(c)
 	// map keys are visited in the order of the derived compare function: its rules are part of "Equal values hash alike"
-	compareCoreRules(c)
+	compareCoreRules(c, false)
 	c.Rep.floor("R16", 50)
 }
 
